@@ -1257,8 +1257,49 @@ pub fn run_trace(
         }
     }
 
+    // C03 state measure: the set of "cache-filling atoms" issued so far on the long-lived
+    // client (op kinds; for layout ops the (script, language, features, tuple?) key; the image
+    // filter). Its hash is the state signature; evidence counts distinct signatures and
+    // distinct <signature, op kind, signature'> transitions.
+    let mut atoms: BTreeSet<String> = BTreeSet::new();
+    let mut state_sig: u64 = 0;
     for (i, op) in trace.ops.iter().enumerate() {
         write_status(opts, i as i64);
+        if prop == "C03" {
+            let atom = match op {
+                Op::Shape {
+                    script,
+                    lang,
+                    feat,
+                    tuple,
+                    ..
+                } => format!(
+                    "Shape:{}:{:?}:{:016x}:{}",
+                    script,
+                    lang,
+                    fnv64(format!("{:?}", feat).as_bytes()),
+                    tuple.as_ref().map_or(0, |t| 1 + t.iter().filter(|v| **v != 0).count())
+                ),
+                Op::FeaturesSupported { script, lang, .. } => format!("Feat:{}:{:?}", script, lang),
+                Op::LookupGlyph { ch, required, vs } if *ch == 0x25CC => format!("Dotted:{}:{}", required, vs),
+                Op::SetImageFilter { flags } => format!("Filter:{}", flags),
+                Op::FontQuery { what } => format!("Query:{}", what),
+                other => other.kind().to_string(),
+            };
+            atoms.insert(atom);
+            let mut h = Fnv::new();
+            for a in &atoms {
+                h.write(a.as_bytes());
+                h.write(b"|");
+            }
+            let next = h.finish();
+            stats.note("c03.states", format!("{:016x}", next));
+            stats.note(
+                "c03.transitions",
+                format!("{:016x}>{}>{:016x}", state_sig, op.kind(), next),
+            );
+            state_sig = next;
+        }
         let limit = STEP_BASE + STEP_PER_BYTE * (env.font_len as u64 + op.arg_len() as u64);
         allsorts::verif::reset();
         allsorts::verif::set_step_limit(limit);
